@@ -25,6 +25,8 @@ GFA1 = {
     "p3": ("P\tp3\tA+,B+\t2M,3M", ["l1", "l11"]),          # circular
     "p4": ("P\tp4\tA+\t*", ["sA"]),
     "p5": ("P\tp5\tB-,A-\t2M", ["l1"]),                    # traverses l1 as its complement
+    "p6": ("P\tp6\tB+,C+\t2M", ["l9"]),                    # the link is written in the complement form of this path's direction
+    "p7": ("P\tp7\tC-,B-\t2M", ["l9"]),
     "h1": ("H\tVN:Z:1.0", []),
     "h2": ("H\txx:i:1", []),
     "h3": ("H\txx:i:2", []),
@@ -60,6 +62,7 @@ GFA2 = {
     "u5": ("U\tu5\tg1 A", ["g1"]),
     "ua": ("U\tus\tA", ["sA"]),
     "ub": ("U\tus\tB\txx:i:1", ["sB"]),
+    "uz": ("U\tuz\tA\tcv:i:0", ["sA"]),                     # a group with a falsy tag value
     "oa": ("O\tos\tA+ B+", ["e1"]),
     "ob": ("O\tos\tC+", ["e6", "oa"]),
     "x1": ("X\ta\tb\txx:i:1", []),
